@@ -1453,11 +1453,20 @@ def e2e_servers(bd, backend):
     from .. import e2e
     srvs = []
     for mode in (0, 1, 2):
-        srv = e2e.Server(bd, E2E_CONF % (mode, backend.port, backend.port, backend.port),
-                         modules=("mod_proxy", "mod_scgi", "mod_fastcgi"))
-        with open(os.path.join(srv.docroot, "probe.txt"), "wb") as f:
-            f.write(PROBE_BODY)
-        srv.start()
+        for attempt in (0, 1):
+            srv = e2e.Server(bd, E2E_CONF % (mode, backend.port, backend.port, backend.port),
+                             modules=("mod_proxy", "mod_scgi", "mod_fastcgi"))
+            with open(os.path.join(srv.docroot, "probe.txt"), "wb") as f:
+                f.write(PROBE_BODY)
+            try:
+                srv.start()
+                break
+            except RuntimeError:            # (port taken between free_port() and bind: once more with another port)
+                srv.stop()
+                if attempt:
+                    for s_ in srvs:
+                        s_.stop()
+                    raise
         srvs.append(srv)
     return srvs
 
@@ -1478,7 +1487,12 @@ def run_e2e(ctx):
         ctx.broken.append({"kind": "model-run", "names": ["beresp"], "log": "model failed on the e2e cases"})
         return
     backend = ScriptedBackend()
-    srvs = e2e_servers(bd, backend)
+    try:
+        srvs = e2e_servers(bd, backend)
+    except RuntimeError as ex:
+        backend.close()
+        ctx.broken.append({"kind": "server-start", "names": ["lighttpd"], "log": str(ex)[-3000:]})
+        return
     ports = [s.port for s in srvs]
     gap = 0.06
     try:
@@ -1592,7 +1606,14 @@ def run(ctx):
     # (short exhaustive cases first: the runner keeps the first failing input of each kind as replay)
     for name, lines in (("relay(h_beresp)", sorted(ex, key=len) + rl + big), ("backend-dechunk(h_beresp)", gen_dechunk(ctx)),
                         ("fastcgi-records(h_beresp)", gen_fcgi(ctx))):
+        nv = len(ctx.violations)
         nd = ctx.differential(name, [exe], "beresp", lines, oracle, classify)
+        if any(v[0].startswith("crash:") for v in ctx.violations[nv:]):
+            # after a crash the outputs of the remaining parallel chunks are no longer aligned with their inputs
+            # (common.parallel_lines pads only the first crashed chunk): report the crash alone
+            ctx.violations[nv:] = [v for v in ctx.violations[nv:] if v[0].startswith("crash:")]
+            ctx.notes.append("%s: harness crashed; oracle/correspondence verdicts of this stream are not reported" % name)
+            continue
         if nd and ctx.model_ok:
             unexplained_disagreements(ctx, name, exe, lines)
     if ctx.model_ok:
